@@ -3871,6 +3871,8 @@ class Qube(object):
         if arg is None:
             return False        # an incompatible argument is not equal
 
+        (self, arg) = Qube.broadcast(self, arg)
+
         # Compare...
         compare = (self._values_ == arg._values_)
         if self._rank_:
@@ -3908,6 +3910,8 @@ class Qube(object):
         arg = self._compatible_arg(arg)
         if arg is None:
             return True         # an incompatible argument is not equal
+
+        (self, arg) = Qube.broadcast(self, arg)
 
         # Compare...
         compare = (self._values_ != arg._values_)
